@@ -9,6 +9,9 @@ def run(prop, tier, seed, work):
     if prop in ("C01", "C02", "C04", "C16"):
         import checks_codec
         return checks_codec.run(prop, tier, seed, work)
+    if prop in ("C03", "C09", "C10", "C11"):
+        import checks_decode
+        return checks_decode.run(prop, tier, seed, work)
     raise vlib.MachineryError("no check for " + prop)
 
 
